@@ -38,3 +38,9 @@ func (d *ScriptDevice) Feed(b []byte) [][]byte {
 	}
 	return out
 }
+
+// Rescript starts a new script: the next line received gets steps[0].
+func (d *ScriptDevice) Rescript(steps [][]byte) {
+	d.Steps = steps
+	d.k = 0
+}
